@@ -40,6 +40,15 @@ impl<T> VpIter<T> {
             r ==> (exists|k: int| 0 <= k < old(self).rest().len() && f.ensures((#[trigger] old(self).rest()[k],), true)),
             !r ==> (forall|k: int| 0 <= k < old(self).rest().len() ==> f.ensures((#[trigger] old(self).rest()[k],), false)),
     { unimplemented!() }
+    /// `position(p)`: index of the first element satisfying p
+    #[verifier::external_body]
+    pub fn position<F: FnMut(T) -> bool>(&mut self, f: F) -> (r: Option<usize>)
+        requires forall|x: T| f.requires((x,)),
+        ensures
+            r matches Some(i) ==> i < old(self).rest().len() && f.ensures((old(self).rest()[i as int],), true)
+                && (forall|k: int| 0 <= k < i ==> f.ensures((#[trigger] old(self).rest()[k],), false)),
+            r is None ==> (forall|k: int| 0 <= k < old(self).rest().len() ==> f.ensures((#[trigger] old(self).rest()[k],), false)),
+    { unimplemented!() }
     #[verifier::external_body]
     pub fn all<F: FnMut(T) -> bool>(&mut self, f: F) -> (r: bool)
         requires forall|x: T| f.requires((x,)),
@@ -164,6 +173,24 @@ impl<'a> VpSlice<'a> {
     { unimplemented!() }
     #[verifier::external_body]
     pub fn iter(self) -> (r: VpIter<&'a SyntaxNode>) ensures r.rest() == self@ { unimplemented!() }
+    /// `s[i]` (rule R6; panics unless i < len)
+    #[verifier::external_body]
+    pub fn vp_at(self, i: usize) -> (r: &'a SyntaxNode) requires i < self@.len() ensures r == self@[i as int] { unimplemented!() }
+    #[verifier::external_body]
+    pub fn last(self) -> (r: Option<&'a SyntaxNode>)
+        ensures self@.len() == 0 ==> r is None, self@.len() > 0 ==> r == Some(self@.last()) { unimplemented!() }
+    /// `&s[start..]`
+    #[verifier::external_body]
+    pub fn vp_range_from(self, start: usize) -> (r: VpSlice<'a>)
+        requires start <= self@.len(),
+        ensures r@ == self@.subrange(start as int, self@.len() as int),
+    { unimplemented!() }
+    /// `&s[..end]`
+    #[verifier::external_body]
+    pub fn vp_range_to(self, end: usize) -> (r: VpSlice<'a>)
+        requires end <= self@.len(),
+        ensures r@ == self@.subrange(0, end as int),
+    { unimplemented!() }
     /// `&s[start..end]` (panics unless start <= end <= len)
     #[verifier::external_body]
     pub fn vp_range(self, start: usize, end: usize) -> (r: VpSlice<'a>)
